@@ -60,7 +60,12 @@ SLACK = 1.0
 TOL_PX = 1.5
 MEAN_SLACK = 0.1
 OUTLIER_FRAC = 0.005
+OUTLIER_ABS = 10
+# level resolutions are not a whole multiple of the RAMP scale, so that the rounding of the upstream picture to integer
+# levels averages out over an image instead of adding a constant bias (seen: 0.25 px with res == s exactly)
+S0_FACTOR = 1.0373
 RLOCK = threading.Lock()
+DEBUG = bool(__import__('os').environ.get('C01_DEBUG'))
 
 
 # ======================================================================================================================
@@ -125,7 +130,7 @@ def gen_spec(rng):
     g = gen_grid(rng, gsrs)
     spec['grids']['g'] = g
     spec['canon'] = gsrs
-    spec['s0'] = g['res'][0]
+    spec['s0'] = g['res'][0] * S0_FACTOR
     spec['layer_grid'] = 'g'
     if shape == 'cached_wms':
         spec['supported_srs'] = rng.choice([None, [gsrs], [gsrs, other_srs(rng, gsrs)]])
@@ -136,6 +141,7 @@ def gen_spec(rng):
         spec['supported_srs'] = rng.choice([None, [gsrs], [gsrs], [gsrs, other_srs(rng, gsrs)]])
     elif shape == 'tile_src':
         spec['tile_template'] = rng.choice(['zxy', 'tms_path', 'bbox'])
+        spec['tile_transparent'] = rng.random() < 0.5
         spec['meta_buffer'] = 0
     elif shape == 'cache_of_cache':
         # g = lower cache grid (fed by the WMS), g2 = upper grid the layer uses
@@ -209,6 +215,8 @@ def build_conf(spec, host='ramp', tiles_host='rtiles'):
         else:
             url = 'http://%s/b?bbox=%%(bbox)s&z=%%(z)s' % tiles_host
         conf['sources']['src'] = {'type': 'tile', 'url': url, 'grid': 'g'}
+        if spec.get('tile_transparent'):
+            conf['sources']['src']['transparent'] = True
     else:
         src = {'type': 'wms', 'req': {'url': 'http://%s/service?' % host, 'layers': 'a', 'transparent': True},
                'wms_opts': {'version': spec['up_version'], 'featureinfo': bool(spec.get('fi'))}}
@@ -575,6 +583,9 @@ def analyse(arr, geom, spec, req, k, src_res, stride=1, full=False):
         bgc = np.array([int(bg[1:3], 16), int(bg[3:5], 16), int(bg[5:7], 16)], dtype=np.uint8)
         is_bg = (arr[sl][..., :3] == bgc).all(axis=2)
         opaque = alpha == 255
+    if spec['shape'] == 'tile_src' and not spec.get('tile_transparent'):
+        # an opaque layer: the cache paints what it has no tile for in its own background colour (white)
+        is_bg = is_bg | ((arr[sl][..., :3] == 255).all(axis=2) & opaque)
     in_mask = fin & (inside > band)
     out_mask = fin & (inside < -band)
     good_in = match & opaque
@@ -675,8 +686,13 @@ def judge_map(run, spec, req, resp, ramp, case, n_up_before):
         run.count('images_upsampled_from_source')
     nbad = r['bad_in'] + r['bad_out']
     frac = nbad / float(max(1, n_j))
+    if DEBUG:
+        print('  map %s %s->%s %s %s/%s size=%r k=%d scale=%.2f in=%d out=%d bad=%d/%d pos=%s' % (
+            spec['shape'], req['srs'], spec['canon'], spec['resampling'], req['scale_class'], req['pos_class'], req['size'],
+            r['k'], r['scale'], r['n_in'], r['n_out'], r['bad_in'], r['bad_out'],
+            {a: (round(v['mean'], 2), round(v['p99'], 2), round(v['max'], 2)) if v else None for a, v in r['pos'].items()}))
     run.count('images_with_outliers', 1 if nbad else 0)
-    if n_j and frac >= OUTLIER_FRAC and nbad > 3:
+    if (r['bad_in'] > OUTLIER_FRAC * r['n_in'] + OUTLIER_ABS) or (r['bad_out'] > OUTLIER_FRAC * r['n_out'] + OUTLIER_ABS):
         viol('pixel_outside_interval',
              '%d of %d judged pixels (%.2f%%) are outside the colour range of their %.2f px neighbourhood (best octave '
              'k=%d of %r, scale %.2f); inside-extent bad %d (of which background %d), outside-extent bad %d; example %r; '
@@ -794,7 +810,7 @@ def gen_exact_spec(rng):
             'meta_size': rng.choice([[1, 1], [2, 2], [3, 2], [4, 4]]), 'meta_buffer': rng.choice([0, 0, 10, 40]),
             'backend': rng.choice(['file:tc', 'file:tms', 'sqlite', 'mbtiles', 'geopackage']),
             'supported_srs': [gsrs], 'coverage': None, 'cached': True, 'layer_grid': 'g', 'extents': [],
-            's0': g['res'][0], 'fi': False}
+            's0': g['res'][0] * S0_FACTOR, 'fi': False}
     if spec['shape'] == 'exact_tile':
         spec['meta_buffer'] = 0
         spec['tile_template'] = 'zxy'
